@@ -15,6 +15,7 @@ import (
 	"net/netip"
 	"runtime"
 	"strings"
+	"sync/atomic"
 	"time"
 
 	"github.com/database64128/shadowsocks-go/conn"
@@ -448,6 +449,8 @@ func (x *exec) httpResponse() ([]byte, []int) {
 	return b, segments(x.rnd, len(b), []int{len(line), len(head), len(head) + 2})
 }
 
+var originSeq atomic.Int64
+
 // httpOrigin plays the origin server behind a non-CONNECT request: it reads what the forwarder sends and answers
 // with a well-formed, a chunked, an interim-then-final, a redirecting, a malformed or no response.
 func (x *exec) httpOrigin(pr netio.Conn) {
@@ -469,7 +472,7 @@ func (x *exec) httpOrigin(pr netio.Conn) {
 	case <-got:
 	case <-time.After(5 * time.Second):
 	}
-	resp := []string{
+	replies := []string{
 		"HTTP/1.1 200 OK\r\nContent-Length: 2\r\n\r\nok",
 		"HTTP/1.1 200 OK\r\nTransfer-Encoding: chunked\r\nTrailer: X-T\r\n\r\n2\r\nok\r\n0\r\nX-T: 1\r\n\r\n",
 		"HTTP/1.1 100 Continue\r\n\r\nHTTP/1.1 204 No Content\r\nConnection: close\r\n\r\n",
@@ -479,7 +482,16 @@ func (x *exec) httpOrigin(pr netio.Conn) {
 		"garbage that is not HTTP\r\n\r\n",
 		"HTTP/1.1 200 OK\r\nContent-Length: -1\r\n\r\n",
 		"",
-	}[x.rnd.Intn(9)]
+	}
+	// redirect statuses x what the Location field can be: absent, empty, repeated, unparsable, relative, elsewhere
+	for _, st := range []string{"301 Moved Permanently", "302 Found", "303 See Other", "307 Temporary Redirect", "308 Permanent Redirect"} {
+		for _, loc := range []string{"", "Location: \r\n", "Location: http://a.example/\r\nLocation: http://b.example/\r\n", "Location: http://[::1/\r\n",
+			"Location: /relative\r\n", "Location: http://elsewhere.example:8080/x\r\n"} {
+			replies = append(replies, "HTTP/1.1 "+st+"\r\n"+loc+"Content-Length: 0\r\n\r\n")
+		}
+	}
+	// every reply gets its turn (the sequence number makes sure of it), in an order that depends on the seed
+	resp := replies[(int(originSeq.Add(1))+x.rnd.Intn(3)*13)%len(replies)]
 	_, _ = pr.Write([]byte(resp))
 	_ = pr.CloseWrite()
 	time.Sleep(2 * time.Millisecond)
